@@ -15,11 +15,12 @@ BASELINE = "cd /repo && env -u DEEPALI_VERIF /venv/bin/python -m pytest -ra -q -
 def main():
     props = [json.loads(l) for l in open(os.path.join(VERIF, "properties.jsonl"))]
     checks, na = [], []
+    claimed = set(open(os.path.join(HERE, "claimed.txt")).read().split())
     for p in props:
         pid = p["id"]
         path = os.path.join(HERE, "props", pid.lower() + ".py")
         entry = None
-        if os.path.exists(path):
+        if os.path.exists(path) and pid in claimed:
             mod = importlib.import_module("props." + pid.lower())
             entry = getattr(mod, "MANIFEST_ENTRY", None)
         if entry is None:
